@@ -136,7 +136,7 @@ def collect_information(exprs):  # noqa: C901
                 continue
             sorts = [s[0] for s in cmd[1]]
             for id in range(len(sorts)):
-                if id >= len(cmd[2]):
+                if id >= len(cmd[2]) or cmd[2][id].is_leaf():
                     logging.trace(
                         f'Ignore "{sorts[id]}" as it lacks a constructor')
                     continue
